@@ -8,17 +8,31 @@ from ..vm import Prog, expect_ok
 ID = "C15"
 LEVEL = "exploration"
 BUDGET = {"quick": 3000, "thorough": 900000}
-RULE = ("case = 1-6 values (Int full range, finite Float incl. huge/tiny/denormal, String over bytes 1..255 incl. quotes, "
+RULE = ("case = 1-6 values (Int full range, Float incl. huge/tiny/denormal and +-inf, String over bytes 1..255 incl. quotes, "
         "backslashes, control characters, '%') written with show (single value) or print_to (sequence with generated "
-        "separators, specs %$ / %li / %lf / %s) at a generated start position after a prefix, then read back with look_from / "
-        "scan_from using the mirrored format, from a String and from a File, optionally with trailing text after the value. "
-        "Oracle: value read == value written (Int exact, String byte-exact, Float |x-x'| <= 0.5e-6 + 1ulp(x)); reader's "
-        "returned position == writer's returned position (String) / == number of characters written (File, also ftell). "
-        "non-trivial = a String containing a character show escapes, or a Float with |x| >= 2^24 or a fractional part, or >= 2 "
-        "values, or pos > 0. distinct = distinct case JSON.")
-ASSUMPTIONS = ["Float tolerance: the text carries 6 decimals (%f), so 0.5e-6 absolute + 1 ulp", "scan target Strings are pre-sized (as C's %s requires)"]
+        "separators incl. a literal '%' written as %%, none before a quoted String) at a generated start position after a "
+        "prefix. Writer specifications: %$; for Int every conversion d i u o x X with every length modifier (none hh h l ll j z "
+        "t), optional + / space / 0 / # flag, right-justifying width, precision; for Float f F e E g G a A with l (read as "
+        "double) or without (read as float), flags, width, precision 0-17; %s for space-free Strings. The text is read back "
+        "with look_from / scan_from (reader specification = the writer's conversion and length modifier without flags, width, "
+        "precision), from a String at the writer's position and from a File (stream at offset 0 with position 0, or standing "
+        "behind the prefix and / or with a non-zero position passed: a File ignores the position, it is only carried along), optionally with trailing text after the value, optionally crossing the "
+        "pairs (show -> scan_from %$, print_to -> look_from). Oracle: value read == value written: Int = the value truncated "
+        "to the C type the length modifier names and widened again (sign-extended for d i, zero-extended for u o x X; exact "
+        "for 64-bit modifiers), String byte-exact, Float |x-x'| <= half a unit of the last printed digit + 1 ulp(x) (+ float "
+        "rounding 2^-24 |x| when read without l; %a without precision exact); reader's returned position == writer's returned "
+        "position (String) / == start + number of characters written (File, also ftell). non-trivial = a String containing "
+        "a character show escapes, or a Float with |x| >= 2^24 or a fractional part, or >= 2 values, or pos > 0, or a "
+        "specification other than %$. distinct = distinct case JSON.")
+ASSUMPTIONS = ["Float tolerance: half a unit of the last digit the specification prints (%f: 0.5e-6 absolute) + 1 ulp",
+               "scan target Strings are pre-sized (as C's %s requires)",
+               "a Float written without 'l' is read into a C float first (C's meaning of %f in scanf): such values stay inside the float range and float rounding is allowed",
+               "'-' flag (trailing padding is not part of a number), %i with leading zeros (read as octal) and precision 0 (0 prints as nothing) are not generated; a padded number directly after a white-space separator is not generated (a white-space directive of scanf eats the padding, the literal's length is what scan_from counts)"]
 
 ESC = set(b"\a\b\f\n\r\t\v\\'\"?")
+INT_LMS = ["", "hh", "h", "l", "ll", "j", "z", "t"]
+BITS = {"": 32, "hh": 8, "h": 16}
+SPEC_RE = re.compile(r"%([-+ #0]*)(\d*)(?:\.(\d+))?(hh|h|ll|l|j|z|t)?([a-zA-Z$])$")
 
 
 def prepare(tier):
@@ -26,7 +40,8 @@ def prepare(tier):
 
 
 # coverage-guided companion (libFuzzer, ASan): the same target as C14's; its second half round-trips every generated
-# Int / Float / String argument through show_to + look_from at a generated position with trailing text
+# Int / Float / String argument through show_to + look_from at a generated position with trailing text, and through
+# print_to + scan_from with a numeric specification
 FUZZ = [{"target": "fz_fmt", "runs": {"quick": 40000, "thorough": 20000000}, "max_len": 256}]
 
 
@@ -39,7 +54,8 @@ def _val():
                   st.sampled_from([15, 16, 17, 31, 32, 33, 63, 64, 65, 127, 128, 129, 255, 256, 257]), st.booleans()).map(lambda x: ["Float", "f:%016x" % gen.f2b(x)]),
         # magnitudes 10^k: the %f text has k+8 characters, so every text length up to ~320 occurs
         st.builds(lambda k, m, neg: (-1.0 if neg else 1.0) * m * 10.0 ** k, st.integers(0, 300), st.sampled_from([1.0, 1.5, 9.999]), st.booleans()).map(lambda x: ["Float", "f:%016x" % gen.f2b(x)]),
-        st.sampled_from([16777217.0, 0.1, 1e22, 123456789.123, -0.000001, 2.0**53 + 2, 1e-7, 4503599627370497.5]).map(lambda x: ["Float", "f:%016x" % gen.f2b(x)]),
+        st.sampled_from([16777217.0, 0.1, 1e22, 123456789.123, -0.000001, 2.0**53 + 2, 1e-7, 4503599627370497.5, float("inf"), float("-inf"),
+                         9.9999996, 0.99999995, 3.4028234e38, 1.5e-38]).map(lambda x: ["Float", "f:%016x" % gen.f2b(x)]),
         st.one_of(gen.cbytes(16), st.binary(max_size=12).map(lambda b: bytes(c or 1 for c in b)),
                   st.sampled_from([b'a"b', b"a\nb", b"\\", b"\\n", b"'?\"", b"\x07\x08\x0c\r\t\x0b", b"%d %s", b"", b" lead", b"q\\\"q"]),
                   st.sampled_from([30, 31, 62, 63, 126, 127, 128, 254, 255]).map(lambda n: b"k" * n)).map(lambda b: ["String", "s:" + b.hex()]),
@@ -47,8 +63,41 @@ def _val():
 
 
 @st.composite
+def _int_spec(draw):
+    conv = draw(st.sampled_from("diuoxX"))
+    lm = draw(st.sampled_from(INT_LMS))
+    if conv in "di":
+        flags = draw(st.sampled_from(["", "", "+", " ", "0", "+0"]))
+    elif conv == "u":
+        flags = draw(st.sampled_from(["", "", "0"]))
+    else:
+        flags = draw(st.sampled_from(["", "", "#", "0", "#0"]))
+    width = draw(st.sampled_from([None, None, 1, 3, 8, 24]))
+    prec = draw(st.sampled_from([None, None, None, 1, 5, 20]))
+    if conv == "i":                 # leading zeros would make the reader's %i choose octal
+        flags, prec = flags.replace("0", ""), None
+    if width is None:
+        flags = flags.replace("0", "")
+    return "%" + flags + ("" if width is None else str(width)) + ("" if prec is None else ".%d" % prec) + lm + conv
+
+
+@st.composite
+def _flt_spec(draw):
+    conv = draw(st.sampled_from("ffFeEgGaA"))
+    lm = draw(st.sampled_from(["l", "l", "l", ""]))
+    flags = draw(st.sampled_from(["", "", "", "+", " ", "0", "#", "+0", "#0"]))
+    width = draw(st.sampled_from([None, None, 1, 9, 30]))
+    prec = draw(st.sampled_from([None, None, 0, 1, 3, 6, 12, 17]))
+    if conv in "aA" and prec is not None and prec > 13:
+        prec = 13
+    if width is None:
+        flags = flags.replace("0", "")
+    return "%" + flags + ("" if width is None else str(width)) + ("" if prec is None else ".%d" % prec) + lm + conv
+
+
+@st.composite
 def _case(draw):
-    mode = draw(st.sampled_from(["show", "show", "print", "print"]))
+    mode = draw(st.sampled_from(["show", "show", "print", "print", "print"]))
     n = 1 if mode == "show" else draw(st.integers(1, 6))
     vals = [draw(_val()) for _ in range(n)]
     specs = []
@@ -56,76 +105,162 @@ def _case(draw):
         if mode == "show":
             specs.append("%$")
         elif v[0] == "Int":
-            specs.append(draw(st.sampled_from(["%$", "%li"])))
+            specs.append(draw(st.one_of(st.sampled_from(["%$", "%li"]), _int_spec(), _int_spec())))
         elif v[0] == "Float":
-            specs.append(draw(st.sampled_from(["%$", "%lf"])))
+            specs.append(draw(st.one_of(st.sampled_from(["%$", "%lf"]), _flt_spec(), _flt_spec())))
         else:
             b = bytes.fromhex(v[1][2:])
             ok_s = len(b) > 0 and not any(c in (9, 10, 11, 12, 13, 32) for c in b)
             specs.append(draw(st.sampled_from(["%$", "%$", "%s"])) if ok_s else "%$")
-    seps = [draw(st.sampled_from([" ", ",", "; ", " | ", ""])) for _ in range(n - 1)]
+    seps = [draw(st.sampled_from([" ", ",", "; ", " | ", "", "", "%%", " %% ", "%%;"])) for _ in range(n - 1)]
     prefix = draw(st.one_of(st.just(b""), gen.cbytes(8)))
     return {"mode": mode, "vals": vals, "specs": specs, "seps": seps, "prefix": prefix.hex(),
-            "pos": draw(st.sampled_from([0, 0, 1000, 400])), "sink": draw(st.sampled_from(["string", "string", "file"])),
-            "trail": draw(st.booleans()),
+            "pos": draw(st.sampled_from([0, 0, 1000, 400])), "sink": draw(st.sampled_from(["string", "string", "file", "file"])),
+            "trail": draw(st.sampled_from([False, True, True, ",", "\n", ")", "\"q\""])),
             # what the String destinations hold before the read (a reused destination: empty, one character, longer),
             # and whether the same text is read a second time into the same destinations
             "dst": draw(st.sampled_from(["xx", "", "x", "x", "previous value, longer than most"])),
-            "again": draw(st.booleans())}
+            "again": draw(st.booleans()),
+            # File source: the stream stands at offset pos behind the prefix and / or a non-zero pos is passed on (a File
+            # ignores pos, it is only carried along), instead of offset 0 / pos 0
+            "fpos": draw(st.sampled_from([False, False, "both", "offset", "pos"])),
+            # a single value: written by show, read by scan_from "%$"; written by print_to, read by look_from
+            "cross": draw(st.sampled_from([False, False, True]))}
 
 
 def strategy(tier):
     return _case()
 
 
-def _fix_seps(case):
-    """separators must keep the text unambiguous for the mirrored scan"""
+def _parse(spec):
+    m = SPEC_RE.match(spec)
+    if not m:
+        raise HarnessBug("specification " + spec)
+    return m.group(1), (int(m.group(2)) if m.group(2) else None), (int(m.group(3)) if m.group(3) is not None else None), m.group(4) or "", m.group(5)
+
+
+def _normalise(case):
+    """-> (writer specs, reader specs, separators): keeps the text unambiguous for the reader
+    (all adjustments are deterministic functions of the case)"""
+    vals = case["vals"]
+    specs = list(case["specs"])
     seps = []
     for i, s in enumerate(case["seps"]):
-        left, right = case["specs"][i], case["specs"][i + 1]
-        lv = case["vals"][i]
+        left, right = specs[i], specs[i + 1]
+        lv, rv = vals[i], vals[i + 1]
         if left == "%s":
             s = " " + s.strip() if s.strip() else " "
-            if not s.startswith(" "):
-                s = " " + s
-        elif s == "" and not (left == "%$" and lv[0] == "String"):
-            s = " "
+        elif s == "" and not (left == "%$" and lv[0] == "String") and not (right == "%$" and rv[0] == "String"):
+            s = " "            # two numbers need something between them; a quoted String delimits itself
         seps.append(s)
-    return seps
+    readers = []
+    for i, sp in enumerate(specs):
+        if sp in ("%$", "%s"):
+            readers.append(sp)
+            continue
+        flags, width, prec, lm, conv = _parse(sp)
+        v = vals[i]
+        if v[0] == "Float" and lm == "":
+            x = gen.b2f(int(v[1][2:], 16))
+            if not (x == 0.0 or abs(x) == float("inf") or 1.2e-38 <= abs(x) <= 3.4e38):
+                lm = "l"        # outside the float range: written and read as a double
+        if i > 0 and seps[i - 1][-1:] in (" ", "\t", "\n") and (width is not None or " " in flags):
+            # a white-space directive would eat the padding: no padding directly after white space
+            width, flags = None, flags.replace(" ", "").replace("0", "")
+        specs[i] = "%" + flags + ("" if width is None else str(width)) + ("" if prec is None else ".%d" % prec) + lm + conv
+        readers.append("%" + lm + conv)
+    return specs, readers, seps
 
 
-def _close(a, b):
-    if a == b:
-        return True
-    ulp = abs(a) * 2.0**-52
-    return abs(a - b) <= 0.5e-6 + ulp
+def _expect_int(v, lm, conv):
+    """what C's printf / scanf pair gives: truncated to the named type on write, widened on read"""
+    bits = BITS.get(lm, 64)
+    u = v % (1 << bits)
+    if conv in "di":
+        return u - (1 << bits) if u >= (1 << (bits - 1)) else u
+    return u if bits < 64 else v
+
+
+def _ulp(a):
+    return abs(a) * 2.0**-52 if abs(a) != float("inf") else 0.0
+
+
+def _float_tol(x, spec):
+    """half a unit of the last digit `spec` prints for x (+ 1 ulp; + float rounding if read without 'l')"""
+    if spec == "%$":
+        flags, width, prec, lm, conv = "", None, 6, "l", "f"
+    else:
+        flags, width, prec, lm, conv = _parse(spec)
+    if abs(x) == float("inf") or x == 0.0:
+        return 0.0
+    c = conv.lower()
+    if c == "f":
+        unit = 10.0 ** -(6 if prec is None else prec)
+    elif c == "e":
+        p = 6 if prec is None else prec
+        e10 = int((("%%.%de" % p) % abs(x)).split("e")[1])          # the exponent the e style shows (after rounding)
+        unit = 10.0 ** (e10 - p)
+    elif c == "g":
+        P = 6 if prec is None else (prec or 1)
+        e10 = int(("%.17e" % abs(x)).split("e")[1])
+        unit = 10.0 ** (e10 - P + 1)
+    elif prec is None:
+        unit = 0.0                                                   # %a shows every bit
+    else:
+        e2 = int(abs(x).hex().split("p")[1])
+        unit = 2.0 ** e2 * 16.0 ** -prec
+    tol = 0.5 * unit * (1 + 1e-9) + _ulp(x)
+    if lm == "":
+        tol += abs(x) * 2.0**-24 + 1.5e-45        # read into a C float first
+    return tol
 
 
 def run_case(ctx, case):
     ex = ctx.executor("ex_vm")
-    vals, specs = case["vals"], case["specs"]
-    seps = _fix_seps(case)
+    vals = case["vals"]
+    specs, readers, seps = _normalise(case)
     prefix = bytes.fromhex(case["prefix"])
     pos = case["pos"] * (len(prefix) + 1) // 1001
-    fmt = b""
+    fmt, rfmt = b"", b""
     for i, sp in enumerate(specs):
         fmt += sp.encode()
+        rfmt += readers[i].encode()
         if i < len(seps):
             fmt += seps[i].encode()
-    ev = ["mode=" + case["mode"], "sink=" + case["sink"]] + ["spec=" + s for s in specs]
+            rfmt += seps[i].encode()
+    mode = case["mode"]
+    cross = bool(case.get("cross")) and len(vals) == 1 and (mode == "show" or specs[0] in ("%$", "%li", "%ld", "%lf", "%lli", "%ji"))
+    ev = ["mode=" + mode, "sink=" + case["sink"]]
     nt = len(vals) >= 2 or pos > 0
+    for i, sp in enumerate(specs):
+        if sp in ("%$", "%s", "%li", "%lf"):
+            ev.append("spec=" + sp)
+        else:
+            flags, width, prec, lm, conv = _parse(sp)
+            ev.append("spec=%" + lm + conv)
+            nt = True
+            if flags or width is not None or prec is not None:
+                ev.append("spec-flags/width/precision")
+    if any("%%" in s for s in seps):
+        ev.append("sep=%%")
+    if any(s == "" for s in seps):
+        ev.append("sep=none")
+    if cross:
+        ev.append("cross")
     for v in vals:
         if v[0] == "String" and any(c in ESC for c in bytes.fromhex(v[1][2:])):
             nt = True
             ev.append("escaped-char")
         if v[0] == "Float":
             x = gen.b2f(int(v[1][2:], 16))
-            if abs(x) >= 2.0**24 or x != math.floor(x):
+            if abs(x) == float("inf"):
+                ev.append("float=inf")
+            elif abs(x) >= 2.0**24 or x != math.floor(x):
                 nt = True
     # ---- phase 1: write
     P = Prog()
     res = {}
-    if case["mode"] == "show":
+    if mode == "show":
         P.add("show %s %d s:%s" % (vals[0][1], pos, prefix.hex()), lambda o: res.__setitem__("w", o))
     else:
         P.add("new %%0 heap t:String s:%s" % prefix.hex())
@@ -140,7 +275,10 @@ def run_case(ctx, case):
     text = full[pos:]
     if full[:pos] != prefix[:pos] or wret != pos + len(text):
         return Result("writer: prefix/position inconsistent (ret=%d, pos=%d, text %r)" % (wret, pos, full[:200]), nt, ev, None)
-    trail = b" #" if case["trail"] else b""
+    tr = case["trail"]
+    trail = b"" if tr is False else (b" #" if tr is True else tr.encode())
+    if specs[-1] == "%s" and trail[:1] not in (b"", b" ", b"\n"):
+        trail = b" " + trail          # C's %s reads up to white space
     # ---- phase 2: read back
     P = Prog()
     READ = []
@@ -156,26 +294,35 @@ def run_case(ctx, case):
             if specs[i] == "%s":
                 P.add("resize %%%d %d" % (s, len(bytes.fromhex(v[1][2:])) + 2))
         dsts.append("%%%d" % s)
+    use_look = (mode == "show") != cross          # look_from for show-written text, scan_from for print-written text, unless crossed
+    if use_look and len(vals) != 1:
+        raise HarnessBug("look needs one value")
+    fpos = foff = 0
     if case["sink"] == "string":
         src = full + trail
-        if case["mode"] == "show":
+        if use_look:
             READ.append("look %s s:%s %d" % (dsts[0], src.hex(), pos))
-            P.add(READ[0], lambda o: res.__setitem__("r", o))
         else:
-            READ.append("scan s:%s %d %s %s" % (src.hex(), pos, fmt.hex(), " ".join(dsts)))
-            P.add(READ[0], lambda o: res.__setitem__("r", o))
+            READ.append("scan s:%s %d %s %s" % (src.hex(), pos, (rfmt if mode != "show" else b"%$").hex(), " ".join(dsts)))
         want_ret = wret
     else:
-        src = text + trail
+        how = case.get("fpos") or ""
+        if how is True:
+            how = "both"
+        if how and pos > 0:
+            fpos = pos if how in ("both", "pos") else 0          # the position passed to the reader
+            foff = pos if how in ("both", "offset") else 0       # where the stream stands (behind the prefix)
+            ev.append("file-reader=" + how)
+        src = (full if foff else text) + trail
         if not src:
             return Result(None, nt, ev, None)
-        if case["mode"] == "show":
-            READ.append("flook %s %s" % (dsts[0], src.hex()))
-            P.add(READ[0], lambda o: res.__setitem__("r", o))
+        if use_look:
+            READ.append(("flookp %s %s %d %d" % (dsts[0], src.hex(), fpos, foff)) if how and pos > 0 else ("flook %s %s" % (dsts[0], src.hex())))
         else:
-            READ.append("fscan %s %s %s" % (src.hex(), fmt.hex(), " ".join(dsts)))
-            P.add(READ[0], lambda o: res.__setitem__("r", o))
-        want_ret = len(text)
+            f = (rfmt if mode != "show" else b"%$").hex()
+            READ.append(("fscanp %d %d %s %s %s" % (fpos, foff, src.hex(), f, " ".join(dsts))) if how and pos > 0 else ("fscan %s %s %s" % (src.hex(), f, " ".join(dsts))))
+        want_ret = fpos + len(text)
+    P.add(READ[0], lambda o: res.__setitem__("r", o))
     if case.get("again"):
         # the destinations now hold the values just read: reading the same text again must give the same answer
         P.add(READ[0], lambda o: None if o == res.get("r") else "second read into the same destinations answered %s, the first one %s" % (o[:200], res.get("r", "")[:200]))
@@ -185,15 +332,19 @@ def run_case(ctx, case):
     r = res.get("r", "")
     m = re.match(r"ok ret=(-?\d+) (?:at=(-?\d+) )?v=(.*)$", r)
     if not m:
-        return Result("reader failed on text %r (format %r): %s" % (text[:200], fmt, r[:200]), nt, ev, None)
+        return Result("reader failed on text %r (writer format %r, reader format %r): %s" % (text[:200], fmt, rfmt, r[:200]), nt, ev, None)
     rret = int(m.group(1))
     got = m.group(3).split(",") if m.group(3) else []
     if len(got) != len(vals):
         return Result("reader returned %d values for %d written" % (len(got), len(vals)), nt, ev, None)
-    for v, g in zip(vals, got):
+    for i, (v, g) in enumerate(zip(vals, got)):
         if v[0] == "Int":
-            if g != "i%d" % int(v[1][2:]):
-                return Result("Int %s read back as %s (text %r)" % (v[1], g, text[:120]), nt, ev, None)
+            want = int(v[1][2:])
+            if specs[i] != "%$":
+                flags, width, prec, lm, conv = _parse(specs[i])
+                want = _expect_int(want, lm, conv)
+            if g != "i%d" % want:
+                return Result("Int %s written with %s read back as %s, expected %d (text %r)" % (v[1], specs[i], g, want, text[:120]), nt, ev, None)
         elif v[0] == "String":
             if g != "s" + v[1][2:]:
                 return Result("String %r read back as %r (text %r)" % (bytes.fromhex(v[1][2:]), bytes.fromhex(g[1:]) if g.startswith("s") and g != "sNULLSTR" else g, text[:120]), nt, ev, None)
@@ -202,15 +353,18 @@ def run_case(ctx, case):
             if not g.startswith("f"):
                 return Result("Float read back as %s" % g, nt, ev, None)
             y = gen.b2f(int(g[1:], 16))
-            if not _close(x, y):
-                return Result("Float %r read back as %r (text %r)" % (x, y, text[:60]), nt, ev, None)
+            tol = _float_tol(x, specs[i])
+            # a text rounded upwards beyond the largest double (DBL_MAX with few digits prints as 2e+308) reads as inf
+            over = abs(y) == float("inf") and (y > 0) == (x > 0) and abs(x) + tol >= 1.7976931348623157e308
+            if not (x == y or abs(x - y) <= tol or over):
+                return Result("Float %r written with %s read back as %r, tolerance %g (text %r)" % (x, specs[i], y, tol, text[:80]), nt, ev, None)
     if rret != want_ret:
         return Result("reader returned position %d, writer wrote up to %d (text %r, format %r)" % (rret, want_ret, text[:120], fmt), nt, ev, None)
     if m.group(2) is not None:
-        at = int(m.group(2))
+        at = int(m.group(2)) - foff
         # stdio may have looked one character ahead; it must not have consumed beyond that
         if at > len(text) + (1 if trail else 0) or at < len(text):
-            return Result("File position after reading is %d, text length %d" % (at, len(text)), nt, ev, None)
+            return Result("File position after reading is %d characters behind the start, text length %d" % (at, len(text)), nt, ev, None)
     return Result(None, nt, ev, None)
 
 
